@@ -52,6 +52,10 @@ def run(ctx):
     # value conservation is enforced by validate_conditions: no accepting path of an entry point may skip it (shared with C01.5)
     from . import c01_effects
     c01_effects.entry_points_validate(ctx, "C02.3")
+    # the reserved fee and the created amounts are read through the canonical, overflow-rejecting amount parser (spec rows shared with C01.2)
+    from . import c01
+    from . import cond_spec as _S
+    c01.c01_2(ctx, _S.load(), rule="C02.3", only={"name:RESERVE_FEE", "name:CREATE_COIN", "two-byte"})
 
 
 def c02_1(ctx):
